@@ -875,7 +875,7 @@ func (fc *fctx) modifiedIn(body map[*ssa.BasicBlock]bool) ([]string, bool) {
 	scanFn(fc.fn, body, 0)
 	var out []string
 	for c := range mods {
-		if _, ok := tr.u.compSort[c]; !ok && !strings.Contains(c, "IT_") {
+		if _, ok := tr.u.compSort[c]; !ok {
 			continue
 		}
 		out = append(out, c)
